@@ -1154,13 +1154,16 @@ class NodeBase(ABC):
         :meta category: Methods to iterate over related node
         """
         for node in self._iterate_preceding():
-            if all(f(node) for f in filter):
+            if all(f(node) for f in chain(default_filters[-1], filter)):
                 yield node
 
-    @altered_default_filters()
     def _iterate_preceding(self) -> Iterator[NodeBase]:
+        # all nodes are visited here, the lookups must not be subject to the default
+        # filters which aren't to be altered while the generator is suspended
         def iter_children(node: NodeBase) -> Iterator[NodeBase]:
-            for child_node in reversed(tuple(node.iterate_children())):
+            with altered_default_filters():
+                child_nodes = tuple(node.iterate_children())
+            for child_node in reversed(child_nodes):
                 yield from iter_children(child_node)
                 yield child_node
 
@@ -1169,7 +1172,8 @@ class NodeBase(ABC):
         last_yield: NodeBase = pointer
 
         while True:
-            pointer = pointer.fetch_preceding_sibling()
+            with altered_default_filters():
+                pointer = pointer.fetch_preceding_sibling()
 
             if pointer is not None:
                 yield from iter_children(pointer)
